@@ -202,6 +202,9 @@ UNITS = [
                   "str.replace(a, b, n) replaces the first n occurrences"]),
     Unit("C01", "jsonargparse._actions:_ActionPrintConfig.__call__", pcc_setup, pcc_post, pcc_raises, expect_cover=("return", "raise:ArgumentError")),
 ]
+from contracts.adapt_arms import arms_units  # noqa: E402
+UNITS = UNITS + [u for u in arms_units("C01") if u.label in ("Tuple/Set", "Enum", "registered-type")]  # their serialise-side obligations
+
 LEMMAS = [Lemma("C01/lemma:plain-scalar-agreement", scalar_lemmas, replayer="replayers.c01:replay_scalar",
                 trusted=["PyYAML resolves a plain scalar by the first matching (tag, regexp) of yaml_implicit_resolvers[first char] + [None] (Resolver.resolve)",
                          "SafeDumper emits a str without quotes only if it resolves to str for the dumper's own resolver table",
